@@ -34,6 +34,10 @@ def shards(tier, seed):
     return out
 
 
+FIXED = ["lit-a/" + "/".join("cat-%s%02d" % ("x" * 150, j) for j in range(14)),
+         "one/pair-~X~/mk-bigbytes-2~E-z/ident", "lit-%EF%BB%BFbom/ident", "mk-inf-2/ident", "mk-nan/ident", "lit-w/pair-q-~X~/mk-bigbytes-1~E"]
+
+
 def norm(log):
     return sorted(("add" if n == "alt.add" else n) for (n, _t, _s) in log)
 
@@ -123,6 +127,7 @@ def run_shard(spec):
         g.avoid_none_default = True
         done = 0
         tries = 0
+        fixed_used = {}
         while done < spec["n"] and tries < spec["n"] * 6:
             tries += 1
             if ("if_contains" in kind or "if_attribute_equal" in kind) and rnd.random() < 0.7:
@@ -135,10 +140,12 @@ def run_shard(spec):
             elif "if_not_contains(abc)" in kind and rnd.random() < 0.6:
                 g._numeric_prefix = False
                 q = g.action(0, 0, True) + rnd.choice(["/attr_low/", "/attr_low/", "/attr_false/"]) + g.query(0, first=False, max_len=3)
-            elif done == 1 and spec["rep"] == 0:
-                # one query per configuration whose text is longer than any key width a back-end may assume (about 2300 characters)
-                q = "lit-a/" + "/".join("cat-%s%02d" % ("x" * 150, j) for j in range(14))
-                env.count("long_queries")
+            elif spec["rep"] == 0 and 1 <= done <= len(FIXED) and not fixed_used.get(done):
+                # a few fixed queries per configuration: a text longer than any key width a back-end may assume, a long
+                # binary value as a named argument, a byte-order mark first, non-finite floats
+                fixed_used[done] = True
+                q = FIXED[done - 1]
+                env.count("fixed_queries")
             elif rnd.random() < 0.06:
                 # texts a decoder may treat specially (byte-order mark first) and arguments that are long binary values
                 g._numeric_prefix = False
@@ -175,9 +182,9 @@ def run_shard(spec):
                     continue
                 try:
                     json.dumps(rk.get("vars"))
-                    from liquer.state_types import encode_state_data
-
-                    encode_state_data(rk.get("value"))      # e.g. a dictionary with tuple keys has no default encoding
+                    if isinstance(rk.get("value"), dict):
+                        json.dumps(rk.get("value"))         # e.g. a dictionary with tuple keys has no JSON form (decided
+                                                            # here, not by the library's own encoder)
                 except Exception:
                     unserialisable = True
                     break
